@@ -247,6 +247,16 @@ def shape_values(rng, shape, n, lo, hi):
         out = [base] * n
         for _ in range(max(1, n // 8)):
             out[rng.randrange(n)] = base + span * rng.choice([-1e6, 1e6, 137166.0, -3.5, 2.5, 9.0, -9.0, 1e3])
+        # a spike on the very first / very last frame (nothing follows it: whatever the wrap lines do must stay inside the plot),
+        # of 5 to 14 track widths (the plotter limits the crossing lines it draws from 8 up, in groups of 4)
+        r = rng.random()
+        if r < 0.6:
+            out[n - 1 if r < 0.4 else 0] = base + span * rng.choice([-1, 1]) * rng.choice([5, 7, 8, 9, 10, 11, 12, 13, 14, 10.5, 40])
+    elif shape == 'end-spike':
+        # an in-scale constant with one far excursion on the very last (or first) frame: nothing follows the excursion
+        base = rng.uniform(a + span * 0.1, b - span * 0.1)
+        out = [base] * n
+        out[-1 if rng.random() < 0.75 else 0] = base + span * rng.choice([-1, 1]) * rng.choice([5, 7, 9, 10, 11, 13, 14, 10.5, 17, 41, 1e3])
     elif shape == 'huge':
         out = [rng.choice([1e30, -1e30, 1.6e38, -1.6e38, 1e12, 1.5163e6, 2.42385e8]) if rng.random() < 0.5 else rng.uniform(a, b) for _ in range(n)]
     elif shape == 'tiny':
@@ -471,17 +481,18 @@ def xml_format_spec(rng, names, nframes=None):
     return spec
 
 
-def las_plot_text(rng, names, nframes=40, shapes=None, step=0.5, up=False, null=NULL):
-    """LAS 2.0 text with the given curve names; returns (text, PlotModel)."""
+def las_plot_text(rng, names, nframes=40, shapes=None, step=0.5, up=False, null=NULL, units='FT'):
+    """LAS 2.0 text with the given curve names; returns (text, PlotModel).  units: the depth units written (FT, F, M)."""
     m = PlotModel()
     m.up = up
     m.null = null
-    m.x_units = b'FEET'
+    m.x_units = b'M   ' if units == 'M' else b'FEET'
     x0 = 1000.0
     m.x = [x0 - step * i if up else x0 + step * i for i in range(nframes)]
     L = ['~Version Information', ' VERS.   2.0 : CWLS LOG ASCII STANDARD - VERSION 2.0', ' WRAP.   NO : One line per depth step',
-         '~Well Information', ' STRT.FT  %.4f : START' % m.x[0], ' STOP.FT  %.4f : STOP' % m.x[-1], ' STEP.FT  %.4f : STEP' % (-step if up else step),
-         ' NULL.   %s : NULL' % ('%.2f' % null if null != int(null) else '%d' % null), ' COMP.   ACME : COMPANY', ' WELL.   W-1 : WELL', '~Curve Information', ' DEPT.FT   : depth']
+         '~Well Information', ' STRT.%s  %.4f : START' % (units, m.x[0]), ' STOP.%s  %.4f : STOP' % (units, m.x[-1]),
+         ' STEP.%s  %.4f : STEP' % (units, -step if up else step),
+         ' NULL.   %s : NULL' % ('%.2f' % null if null != int(null) else '%d' % null), ' COMP.   ACME : COMPANY', ' WELL.   W-1 : WELL', '~Curve Information', ' DEPT.%s   : depth' % units]
     for nm in names:
         L.append(' %s.%s   : curve %s' % (nm, rng.choice(['GAPI', 'MV', 'IN', 'OHMM', '']), nm))
         shape = (shapes or {}).get(nm) or rng.choice(['constant', 'sine', 'ramp', 'spiky', 'absent-runs'])
